@@ -376,8 +376,14 @@ func init() {
 			if tier == "thorough" {
 				nmax = 3
 			}
-			for _, first := range []string{"a.b", "a[", "'unterminated", "\"", "a || ", "`[1,2]`", "foo(", "'it\\'s'", "a[0:1:2:3]", "'it\\'s", "a == 'x\\'", "\"un\\\"closed", "`[1,"} {
-				for n := 0; n <= nmax+1; n++ {
+			firsts := []string{"a.b", "a[", "'unterminated", "\"", "a || ", "`[1,2]`", "foo(", "'it\\'s'", "a[0:1:2:3]", "'it\\'s", "a == 'x\\'", "\"un\\\"closed", "`[1,"}
+			for fi, first := range firsts {
+				lim := nmax
+				// one more symbolic byte after the firsts that leave lexer state behind (a raw string needs 3 bytes)
+				if fi == 0 || fi == 9 || fi == 10 {
+					lim = nmax + 1
+				}
+				for n := 0; n <= lim; n++ {
 					j := jobOf("VerifParserReuse", []string{"C13"}, "first", first, "N", itoa(n))
 					j.Unwind = 64
 					js = append(js, j)
@@ -581,6 +587,11 @@ func init() {
 					js = append(js, j)
 				}
 			}
+			for _, e := range []string{"[name, owner.name]", "[owner.name, name]", "[owner.name, kids[0].name, name]", "kids[*].name", "owner.age", "[kids[0].name, owner.name]"} {
+				j := jobOf("VerifStructAnon", []string{"C18"}, "expr", e)
+				j.Unwind = 64 + 4*len(e)
+				js = append(js, j)
+			}
 			return js
 		},
 		Bounds: func(tier string) map[string]interface{} {
@@ -600,6 +611,8 @@ func init() {
 		"os.ReadFile": "jpgo.verifReadFile", "io.ReadAll": "jpgo.verifReadAll",
 		"encoding/json.Unmarshal": "jpgo.verifUnmarshal", "(*github.com/jmespath/go-jmespath.Parser).Parse": "jpgo.verifParserParse",
 		"github.com/jmespath/go-jmespath.Search": "jpgo.verifLibSearch",
+		"os.Open": "jpgo.verifOsOpen", "(*os.File).Close": "jpgo.verifFileClose", "encoding/json.NewDecoder": "jpgo.verifNewDecoder",
+		"(*encoding/json.Decoder).Decode": "jpgo.verifDecode", "bufio.NewReader": "jpgo.verifBufioNewReader",
 	}
 	specs["C19"] = &CheckSpec{Prop: "C19", Level: "model_checking", Panics: true,
 		Jobs: func(tier string) []*Job {
